@@ -133,7 +133,7 @@ def deprecated_list(path: Path, fix: bool, cleanup: bool):
 
     if cleanup and not fix:
         logging.warning("Ignoring --cleanup since we are not fixing old IDs")
-    fix_deprecated(path, fix, cleanup)
+    fix_deprecated(path, fix, cleanup and fix)
 
 
 @click.argument("path", type=Path, callback=check_xp_path)
